@@ -235,6 +235,13 @@ def run(ctx) -> None:
         vals = sum(np.where(ids >> i & 1, wts[i], 0.0) for i in range(nb)) + (pc * (pc - 1) / 2.0) * rng.choice([0.5, 1.0, 2.0])
         run_table_case(ctx, {"family": f"big_n_{nb}", "values": [float(x) for x in vals]})
         ctx.count("games_with_more_than_8_players")
+    # guaranteed minimum, independent of the time budget
+    run_graph_case(ctx, {"family": "graph_int", "graph": [[0.0, 2.0, 1.0], [0.0, 0.0, 3.0], [0.0, 0.0, 0.0]]})
+    g0 = GENERATORS["noisy_factory"](4, np.random.default_rng(rng.randint(0, 2**31)))
+    ctx.count("registered_generator_games")
+    run_table_case(ctx, {"family": "noisy_factory", "values": [float(x) for x in g0.get_values()]})
+    env_observation_case(ctx, "xos", 4, rng.randint(0, 2**31))
+    run_table_case(ctx, {"family": "additive_int_additive", "values": additive_float(rng, 4, "int_additive")})
     i = 0
     while not ctx.out_of_time(1.0):
         i += 1
